@@ -105,11 +105,13 @@ PROPS["C02"] = {"units": [
     rapid_unit("napt-in-package", "vnat", "^TestC02NAPT$", 10000, 16 * 200000, overlay="full"),
     rapid_unit("one-to-one", "vnat", "^TestC02OneToOne$", 5000, 16 * 50000, overlay="full"),
     rapid_unit("port-space", "vnat", "^TestC02PortSpace$", 12, 16 * 12, overlay="full"),
+    rapid_unit("expiry-e2e", "vnete2e", "^TestC02ExpiryE2E$", 200, 16 * 600, overlay="plain", shrinktime="5s"),
 ]}
 PROPS["C03"] = {"units": [
     plain_unit("regress", "vnat", "^TestRegressC03", overlay="full"),
     rapid_unit("napt-in-package", "vnat", "^TestC03NAPT$", 10000, 16 * 200000, overlay="full"),
     rapid_unit("one-to-one", "vnat", "^TestC03OneToOne$", 5000, 16 * 50000, overlay="full"),
+    rapid_unit("expiry-e2e", "vnete2e", "^TestC03ExpiryE2E$", 200, 16 * 600, overlay="plain", shrinktime="5s"),
 ]}
 
 PROPS["C15"] = {"units": [
